@@ -25,20 +25,24 @@ func (k msgServer) ExecuteOrders(goCtx context.Context, msg *types.MsgExecuteOrd
 		var err error
 		var res *ammtypes.MsgSwapByDenomResponse
 
+		// execute the order on a cached context: a failed execution is only logged, so it must
+		// not leave partial effects behind (escrow released while the order stays pending)
+		cachedCtx, write := ctx.CacheContext()
+
 		// dispatch based on the order type
 		switch spotOrder.OrderType {
 		case types.SpotOrderType_STOPLOSS:
 			// execute the stop loss order
-			res, err = k.ExecuteStopLossOrder(ctx, spotOrder)
+			res, err = k.ExecuteStopLossOrder(cachedCtx, spotOrder)
 		case types.SpotOrderType_LIMITSELL:
 			// execute the limit sell order
-			res, err = k.ExecuteLimitSellOrder(ctx, spotOrder)
+			res, err = k.ExecuteLimitSellOrder(cachedCtx, spotOrder)
 		case types.SpotOrderType_LIMITBUY:
 			// execute the limit buy order
-			res, err = k.ExecuteLimitBuyOrder(ctx, spotOrder)
+			res, err = k.ExecuteLimitBuyOrder(cachedCtx, spotOrder)
 		case types.SpotOrderType_MARKETBUY:
 			// execute the market buy order
-			res, err = k.ExecuteMarketBuyOrder(ctx, spotOrder)
+			res, err = k.ExecuteMarketBuyOrder(cachedCtx, spotOrder)
 		}
 
 		// log the error if any
@@ -46,6 +50,7 @@ func (k msgServer) ExecuteOrders(goCtx context.Context, msg *types.MsgExecuteOrd
 			// Add log about error or not executed
 			spotLog = append(spotLog, fmt.Sprintf("Spot order Id:%d cannot be executed due to err: %s", spotOrderId, err.Error()))
 		} else {
+			write()
 			ctx.EventManager().EmitEvent(types.NewExecuteSpotOrderEvt(spotOrder, res))
 		}
 	}
@@ -61,11 +66,15 @@ func (k msgServer) ExecuteOrders(goCtx context.Context, msg *types.MsgExecuteOrd
 
 		var err error
 
+		// execute the order on a cached context: a failed execution is only logged, so it must
+		// not leave partial effects behind (escrow released, a half-opened position, a pending order)
+		cachedCtx, write := ctx.CacheContext()
+
 		// dispatch based on the order type
 		switch perpetualOrder.PerpetualOrderType {
 		case types.PerpetualOrderType_LIMITOPEN:
 			// execute the limit open order
-			err = k.ExecuteLimitOpenOrder(ctx, perpetualOrder)
+			err = k.ExecuteLimitOpenOrder(cachedCtx, perpetualOrder)
 			// Disable for v1
 			// case types.PerpetualOrderType_LIMITCLOSE:
 			// 	// execute the limit close order
@@ -77,6 +86,8 @@ func (k msgServer) ExecuteOrders(goCtx context.Context, msg *types.MsgExecuteOrd
 		if err != nil {
 			// Add log about error or not executed
 			perpLog = append(perpLog, fmt.Sprintf("Perpetual order Id:%d cannot be executed due to err: %s", perpetualOrderId, err.Error()))
+		} else {
+			write()
 		}
 	}
 
